@@ -92,6 +92,13 @@ impl Shards {
     }
     /// write one unit (a self-contained run of events) to the next shard
     pub fn unit(&mut self, evs: &[Value]) {
+        for e in evs {
+            if let Some(k) = e.get("ev").and_then(|x| x.as_str()) {
+                if k == "asmfail" || k == "nonterminating" {
+                    *self.counters.entry(format!("!{}", k)).or_insert(0) += 1;
+                }
+            }
+        }
         let f = &mut self.files[self.next];
         for e in evs {
             serde_json::to_writer(&mut *f, e).unwrap();
@@ -182,13 +189,9 @@ pub fn program_for(ins: &Ins, labels: &[DataLabel], sp: &Spelling) -> (String, u
             src.push('\n');
         }
         Ins::Call { name, target } => {
-            // procedures first: [target fillers inside an earlier proc] def name { clc }
-            if *target > 0 {
-                src.push_str("def vfill {\n");
-                for _ in 0..(*target - 1) {
-                    src.push_str("clc\n");
-                }
-                src.push_str("}\n"); // implied ret = one instruction
+            // `target` filler instructions, then the procedure (its first instruction has index `target`)
+            for _ in 0..*target {
+                src.push_str("clc\n");
             }
             src.push_str(&format!("def {} {{\nclc\n}}\n", name));
             src.push_str("start:\n");
